@@ -25,10 +25,13 @@ class DeflateZipModel(JWEZipModel):
         else:
             decompressor = zlib.decompressobj(-zlib.MAX_WBITS)
         try:
-            value = decompressor.decompress(s, MAX_SIZE)
+            # ask for one octet more than allowed: zlib may have consumed all of its
+            # input while still holding pending output, so ``unconsumed_tail`` alone
+            # does not tell whether the data was cut off at the limit
+            value = decompressor.decompress(s, MAX_SIZE + 1)
         except zlib.error as error:
             raise DecodeError(f"Invalid compressed data: {error}")
-        if decompressor.unconsumed_tail:
+        if len(value) > MAX_SIZE or decompressor.unconsumed_tail:
             raise ExceededSizeError(f"Decompressed string exceeds {MAX_SIZE} bytes")
         return value
 
